@@ -97,9 +97,48 @@ def check_t1(chk, mods, K, min_n=2):
     chk.expect("T1", "comparisons involving time values or differences", n, min_n)
 
 
+def nsw_on_time(fn, argnames):
+    """instructions of fn that subtract / add values derived from the named arguments with the no-signed-wrap flag"""
+    derived = set(argnames)
+    changed = True
+    bad = []
+    while changed:
+        changed = False
+        for blk in fn.order:
+            for i in blk.insts:
+                if i.is_dbg() or not i.name or i.name in derived:
+                    continue
+                ops = [v for v, b in i.incoming] if i.op == "phi" else list(i.ops)
+                if any((o.k in ("arg", "inst")) and o.name in derived for o in ops) and i.op in ("phi", "zext", "sext", "trunc", "bitcast", "select", "freeze", "load"):
+                    derived.add(i.name)
+                    changed = True
+    for blk in fn.order:
+        for i in blk.insts:
+            if i.op in ("sub", "add") and i.get("nsw") and all((o.k in ("arg", "inst")) and o.name in derived for o in i.ops):
+                bad.append(i)
+    return bad
+
+
 def check_t2(chk, m, mu, K):
-    fn, ps = fib.fn_paths(mu, "cyclecmp32")
+    # cyclecmp32 as its callers see it: a function of util.c, a static inline of util.h or a macro - the witness is linked
+    # with util.c and everything is inlined into it
+    try:
+        mw = build.api_view("c02_api.c", "#include <librfn/util.h>\nint32_t w_cyclecmp32(uint32_t a, uint32_t b) { return cyclecmp32(a, b); }\n",
+                            ["librfn/util.c"], ["w_cyclecmp32"])
+    except AnalysisError as e:
+        chk.unknown("T2.difference", "cyclecmp32", "API view of cyclecmp32 does not build: %s" % str(e)[-200:])
+        return
+    chk.note_unit(mw)
+    fn = mw.fn("w_cyclecmp32")
     chk.note_fn(fn)
+    ps = [p for p in paths.enumerate_paths(fn, mw, loop_bound=1) if not paths.is_assert_fail_path(p)]
+    bad = nsw_on_time(fn, {fn.args[0].name, fn.args[1].name})
+    chk.ob("T2.modular-difference", "cyclecmp32", not bad,
+           "the difference of the two times is formed in unsigned (modular) arithmetic" if not bad else
+           "the times are subtracted as SIGNED integers (%s at %s): overflow is undefined behaviour exactly in the wrap cases the "
+           "function exists for, and once the function is visible to its callers an optimising compiler folds cyclecmp32(a, b) <= 0 "
+           "into (int) a <= (int) b, a magnitude comparison" % (bad[0].op, bad[0].loc), bad[0].loc if bad else fn.loc, "cyclecmp32")
+    mu = mw
     # decided for all 2^64 argument pairs: on every path the value returned is (a - b) mod 2^32 (read as int32_t)
     from ..domains.bdd import BDD, BV
     from ..domains.bvexec import expr_bv, Top
@@ -243,6 +282,9 @@ def check_t3(chk, m, K):
             if r is not None:
                 x = strip_casts(r[0])
                 if x[0] == "call" and x[1] == "cyclecmp32" and time_kind(x[2][0], K, fn) == "time" and x[2][1][0] == "ld" and x[2][1][1] == K.kptr("now"):
+                    test = r[1]
+                # the same difference written out (cyclecmp32 inlined from a header, or open-coded)
+                elif x[0] == "b" and x[1] == "sub" and time_kind(x[3], K, fn) == "time" and strip_casts(x[4])[0] == "ld" and strip_casts(x[4])[1] == K.kptr("now"):
                     test = r[1]
             elif cc[0] == "icmp" and time_kind(cc[2], K, fn) == "diff":
                 test = "other:" + fmt(cc)[:50]
